@@ -95,6 +95,23 @@ def run(F, R, tier):
             sym_lid = st["pat"]["lid"]
             if callee_matches(c, ["ModuleBuilder::ensure_symbol_for_swc_id"]) or "SymbolId" in (F.ty(st["pat"]) or ""):
                 id_lids.add(sym_lid)
+        else:
+            asg_ = st.get("e", st)
+            if asg_.get("k") == "Assign" and peel(asg_["l"]).get("res") == "local" and peel(asg_["r"]) is c:
+                sym_lid = peel(asg_["l"])["lid"]
+
+        # the parent the symbol is created for
+        def sym_of_id_expr(e):
+            e = peel_value(e)
+            if e.get("k") == "MethodCall" and e["name"] == "symbol_id":
+                return peel_value(e["recv"]).get("lid")
+            i = local_init(e)
+            if i is not None:
+                i = peel_value(i)
+                if i.get("k") == "MethodCall" and i["name"] == "symbol_id":
+                    return peel_value(i["recv"]).get("lid")
+            return None
+        parent_lid = sym_of_id_expr(call_args(c)[-1]) if call_args(c) else None
 
         def child_of(arg):
             a = peel_value(arg)
@@ -134,6 +151,15 @@ def run(F, R, tier):
              "after this creation a path registers the new symbol %s with its parent (child counts %s, member counts %s): it would be reachable from its parent twice / as child and member" % (
                  "more than once", sorted(results["child"]), sorted(results["member"])), where(c),
              key="C16|C16-a|%s|%s" % (b["path"], "double-registration"))
+        if parent_lid is not None:
+            regs = [n for n in walk(blk) if ev_child(n) or ev_member(n)]
+            for r_ in regs:
+                rl = peel_value(r_["recv"]).get("lid")
+                # the registering symbol may be the same value under another local (e.g. `let previous = cur;`)
+                same = rl == parent_lid or any(peel_value(y).get("lid") == parent_lid for y in through_locals(peel_value(r_["recv"]))) or any(peel_value(y).get("lid") == rl for y in through_locals({"k": "Path", "res": "local", "lid": parent_lid, "_top": b}))
+                R.ob("C16-a", "the symbol is registered with the parent it was created for [%s]" % inst, same,
+                     "symbol created with parent `%s` but registered on `%s`: its parent does not list it and the symbol that lists it is not its parent" % (expr_text(call_args(c)[-1]), expr_text(r_["recv"])), where(r_),
+                     key="C16|C16-a|%s|parent-mismatch" % b["path"])
         if b["path"].endswith("create_symbol_member_or_export"):
             R.ob("C16-a", "member/definition symbol is registered exactly once [%s]" % inst, results["any"] == {1},
                  "a path creates a member symbol without add_child_id / add_member (counts %s): the symbol is unreachable from its parent" % sorted(results["any"]), where(c))
@@ -251,6 +277,14 @@ def run(F, R, tier):
         R.ob("C16-c", "own (and earlier) exports take precedence over star re-exports", own_wins, "star re-export insert is not guarded by !resolved.contains_key(&name): a re-exported name would overwrite the module's own export", where(n))
         for o in own_ins:
             R.ob("C16-c", "own exports are entered before star re-exports", may_reach(F, o, n), "own exports inserted after star re-exports", where(o))
+
+    vins = [n for n in ex["_nodes"] if n.get("k") == "MethodCall" and n["name"] == "insert" and peel(n["recv"]).get("lid") in {param_lid(ex, i) for i in visited_params(F, ex)}]
+    okk = len(vins) == 1
+    if okk:
+        k_ = peel_value(vins[0]["args"][0])
+        okk = k_.get("k") == "MethodCall" and k_["name"] == "specifier" and tyc(F, k_["recv"], "ModuleInfoRef") and peel_value(k_["recv"]).get("lid") in {p_.get("lid") for p_ in ex["body"]["params"]}
+    R.ob("C16-c", "re-export traversal is de-duplicated by the module being visited (its resolved specifier)", okk,
+         "the visited set of exports_and_re_exports_inner is not keyed by `module.specifier()` of the module being entered: two different modules reached through the same specifier text would be treated as one and their exports dropped", ex["file"])
 
     # ---------------- C16-d ------------------------------------------------
     un = [n for n in F.all_nodes() if callee_matches(n, ["NodeRefBox::unsafe_new"])]
